@@ -8,7 +8,9 @@ This rewrite is mechanical and confined to those four names; its output is store
 """
 import ast
 
-SRC = "/repo/yamlpath/yamlpath.py"
+import os
+
+SRC = os.path.join(os.environ.get("VERIF_REPO", "") or "/repo", "yamlpath", "yamlpath.py")
 STATE = ["path_segments", "segment_id", "segment_type", "demarc_stack", "escape_next", "search_inverted",
          "search_method", "search_attr", "search_keyword", "seeking_regex_delim", "capturing_regex",
          "collector_level", "collector_operator", "seeking_collector_operator", "next_char_must_be",
